@@ -3044,6 +3044,8 @@ def rule_extfilter(toks, fired):
         if mc is not None:
             dot, p, pe = mc
             last = prev_code(toks, pe - 1)
+            if toks[last].text == ",":          # trailing comma of a multi-line argument list
+                last = prev_code(toks, last - 1)
             semi = next_code(toks, pe + 1)
             if toks[last].text == ")" and semi < len(toks) and toks[semi].text == ";":
                 # the argument must end in `.filter(..)` directly after `.iter()`
@@ -3099,6 +3101,67 @@ def rule_extid(toks, fired):
 RULES["extfilter"] = rule_extfilter
 RULES["extid"] = rule_extid
 RULE_ORDER[RULE_ORDER.index("R20"):RULE_ORDER.index("R20")] = ["extfilter", "extid"]
+
+
+def rule_sortlenrev(toks, fired):
+    """sortlenrev:  X.sort_by_key(|b| Reverse(b.len()))  ->  sort_sets_by_len_rev(X)     (unit chordal_cgraph: compute_reduced_clique_graph;
+    X a `&mut [IndexSet]` variable - passing it to a `&mut [T]` parameter reborrows it exactly as the method call does).  The unit
+    declares the helper with the ASSUMED documented behaviour of slice::sort_by_key with key `Reverse(len)`: a (stable) permutation
+    of the elements with non-increasing lengths.  Any other closure is outside the rule."""
+    i = 0
+    while i < len(toks):
+        mc = _method_call_at(toks, i, "sort_by_key")
+        if mc is not None:
+            dot, p, pe = mc
+            pat, body = _closure_parts(toks, p, pe)
+            pc = [x.text for x in pat if x.kind not in ("ws", "comment")]
+            bc = [x.text for x in body if x.kind not in ("ws", "comment")]
+            if len(pc) == 1 and bc == ["Reverse", "(", pc[0], ".", "len", "(", ")", ")"]:
+                a = _postfix_start(toks, dot)
+                new = synth("sort_sets_by_len_rev(") + _strip_ws(toks[a:dot]) + synth(")")
+                toks = toks[:a] + new + toks[pe + 1:]
+                fired["sortlenrev"] = fired.get("sortlenrev", 0) + 1
+                i = a + 1
+                continue
+        i += 1
+    return toks
+
+
+def rule_posfirst(toks, fired):
+    """posfirst:  X.iter().position(|x| C)  ->
+         { let mut pf_rN: Option<usize> = None; let mut pf_iN: usize = 0; for x in X.iter() { if pf_rN.is_none() && C { pf_rN = Some(pf_iN); } pf_iN += 1; } pf_rN }
+    (unit chordal_cgraph: is_unconnected).  Iterator::position: the index of the first item on which the predicate holds, None if
+    there is none; the predicate is not evaluated after the first hit (`is_none() &&` short-circuits, as in R21).  The closure of
+    `position` receives the item itself, which is the loop variable.  Fires only for a plain identifier pattern; C must not contain
+    `return` / `?`.  The synthesized `+= 1` is an overflow obligation."""
+    n = 0
+    i = 0
+    while i < len(toks):
+        mc = _method_call_at(toks, i, "position")
+        if mc is not None:
+            d_it = _empty_call_before(toks, mc[0], "iter")
+            if d_it is not None:
+                pat, body = _closure_parts(toks, mc[1], mc[2])
+                pc = [x for x in pat if x.kind not in ("ws", "comment")]
+                if len(pc) == 1 and pc[0].kind == "ident":
+                    if any(x.kind == "ident" and x.text == "return" for x in body) or any(x.text == "?" for x in body):
+                        raise ExtractError("posfirst: closure body with return / ?")
+                    a = _postfix_start(toks, d_it)
+                    n += 1
+                    rn, iv = f"pf_r{n}", f"pf_i{n}"
+                    new = (synth(f"{{ let mut {rn}: Option<usize> = None; let mut {iv}: usize = 0; ") + [_for_tok()] + synth(f" {pc[0].text} in ")
+                           + _strip_ws(toks[a:mc[0]]) + synth(f" {{ if {rn}.is_none() && ") + body + synth(f" {{ {rn} = Some({iv}); }} {iv} += 1; }} {rn} }}"))
+                    toks = toks[:a] + new + toks[mc[2] + 1:]
+                    fired["posfirst"] = fired.get("posfirst", 0) + 1
+                    i = a + 1
+                    continue
+        i += 1
+    return toks
+
+
+RULES["sortlenrev"] = rule_sortlenrev
+RULES["posfirst"] = rule_posfirst
+RULE_ORDER[RULE_ORDER.index("R20"):RULE_ORDER.index("R20")] = ["sortlenrev", "posfirst"]
 
 
 def apply_rules(toks, rules, fired):
